@@ -18,7 +18,10 @@ RULE = ("circuits of elementary components (BS of the three conventions incl. no
 TRUSTED = ["model: coq/Model/Engines.v, EnginesX.v; spec = textbook Laplace permanent (Lib/Permanent.v)",
            "SLAP, MPS (SVD), the native SLOS layer and permanent_cx have no algorithmic model: compared with the spec only"]
 ASSUMPTIONS = ["tolerance 1e-9 on amplitudes (1e-6 for MPS, whose singular-value floor is 1e-8; 5e-6 for the Stepper, because the native StateVector it accumulates into drops terms below ~1e-6 and renormalises)",
-               "MPS is run with set_cutoff((n+1)**(m//2)) = its full bond dimension"]
+               "MPS is run with set_cutoff((n+1)**(m//2)) = its full bond dimension",
+               "amplitudes read out of a StateVector (evolve) may read exactly 0 when the specification's amplitude is below 2e-6 in "
+               "modulus: the native StateVector container drops terms under ~1e-6 (StateVector(|1,0>) + 9e-7*|0,1> has one term); "
+               "prob_amplitude / probability / prob_distribution / all_prob are compared at full tolerance"]
 
 
 class Circ:
@@ -64,6 +67,14 @@ def rand_circ(rng, m, elementary):
     return Circ(m, items, mps_ok)
 
 
+def sv_close(a, anum, nrm, tol):
+    """Amplitude read out of a StateVector: the native StateVector drops terms whose modulus is below about 1e-6
+    (documented trimming of the container, not of the engines), so a term of that size may read exactly 0."""
+    if close(a * math.sqrt(nrm), anum, tol * math.sqrt(nrm)):
+        return True
+    return a == 0 and abs(anum) / math.sqrt(nrm) < 2e-6
+
+
 def engines(mps_ok):
     import perceval as pcvl
     e = {"Naive": pcvl.NaiveBackend, "SLOS": pcvl.SLOSBackend, "SLAP": pcvl.SLAPBackend}
@@ -79,7 +90,7 @@ def run(ctx):
     rng = ctx.rng
     BS_ = pcvl.BasicState
     mmax, nmax = (5, 3) if ctx.quick() else (6, 4)
-    ncirc = ctx.n(22, 400)
+    ncirc = ctx.n(22, 120)
     circs = corpus(rng) + [rand_circ(rng.fork(i), rng.rint(2, mmax), rng.chance(2, 3)) for i in range(ncirc)]
     jobs = []       # (circ, s)
     for ci, c in enumerate(circs):
@@ -157,7 +168,7 @@ def run(ctx):
                     sv = b.evolve()
                     for t, anum, nrm in expected:
                         a = complex(sv[BS_(t)])
-                        if not close(a * math.sqrt(nrm), anum, 10 * tol * math.sqrt(nrm)):
+                        if not sv_close(a, anum, nrm, 10 * tol):
                             fail(f"evolve-{name}", f"{name}.evolve amplitude differs", {**case, "output": t},
                                  str(anum / math.sqrt(nrm)), str(a))
                             break
@@ -171,7 +182,7 @@ def run(ctx):
             sv = st.evolve(BS_(s))
             for t, anum, nrm in expected:
                 a = complex(sv[BS_(t)])
-                if not close(a * math.sqrt(nrm), anum, 5e-6 * math.sqrt(nrm)):
+                if not sv_close(a, anum, nrm, 5e-6):
                     fail("amplitude-Stepper", "Stepper.evolve amplitude differs", {**case, "output": t},
                          str(anum / math.sqrt(nrm)), str(a))
                     break
@@ -375,7 +386,7 @@ def run(ctx):
                     if name.startswith("Stepper"):
                         sv = b.evolve(sstate)
                         for t, anum, nrm in exp:
-                            if not close(complex(sv[BS_(t)]) * math.sqrt(nrm), anum, tol * math.sqrt(nrm)):
+                            if not sv_close(complex(sv[BS_(t)]), anum, nrm, tol):
                                 bad = (t, anum / math.sqrt(nrm), complex(sv[BS_(t)]))
                                 break
                     else:
@@ -412,7 +423,7 @@ def run(ctx):
                         else:
                             sv = b.evolve()
                             for t, anum, nrm in exp:
-                                if not close(complex(sv[BS_(t)]) * math.sqrt(nrm), anum, 10 * tol * math.sqrt(nrm)):
+                                if not sv_close(complex(sv[BS_(t)]), anum, nrm, 10 * tol):
                                     bad = (t, anum / math.sqrt(nrm), complex(sv[BS_(t)]))
                                     break
                     if bad is not None:
